@@ -223,7 +223,7 @@ def main():
             "name": "pbt-harness", "path": "/verif/run.py",
             "serves_properties": [c["property_id"] for c in checks],
             "kind_free_text": "Hypothesis-driven property-based testing in collect mode (16 sharded processes), independent JOSE reference implementation "
-                              "as differential oracle and token forge, exhaustive fault enumeration per generated token, settrace-based two-thread scheduler",
+                              "as differential oracle and token forge, exhaustive fault enumeration per generated token, settrace-based two-thread scheduler; the thorough tiers of C16 and C19 add an atheris (libFuzzer) campaign over the same strategies",
         }],
         "checks": checks,
         "not_applicable": na,
